@@ -162,11 +162,14 @@ class C16(AAdapterProp):
     pid = "C16"
     coq_targets = ["Props/C16.vo"]
     family_doc = "ACH/ATK: poll_read histories on AsyncReadWriteChain / AsyncReadWriteTake over scripted async streams, with tokio's chain()/take() on the same scripts"
-    level_text = ("Coq theorems c16_chain_sim / c16_take_sim: poll for poll, for ALL inner streams and every well-formed ReadBuf (any filled prefix, "
-                  "any remaining capacity including 0, initialised or not), the adapters equal tokio's own Chain / Take (transcribed from tokio "
-                  "1.53.1 and compared with the real ones in every run) on result, filled bytes and inner calls; facets c16_pending_frame "
-                  "(Pending only if an inner poll returned it; has_first / remaining unchanged on Pending), c16_filled_prefix, c16_take_bound; "
-                  "c16_pinned_refuted keeps the zero-capacity counterexample of the pre-fix chain. Stated over the modelled ReadBuf.")
+    level_text = ("Coq theorems c16_chain_sim (poll for poll, for ALL inner streams that keep the ReadBuf's backing slice and only grow its filled "
+                  "part, and every well-formed ReadBuf — any filled prefix, any remaining capacity including 0, initialised or not — the chain equals "
+                  "tokio's own Chain, transcribed from tokio 1.53.1 and compared with the real one in every run: result, filled bytes, inner "
+                  "calls), c16_chain_pending_keeps / c16_chain_pending_only_from_inner (Pending only if an inner poll returned it; the first reader "
+                  "is kept), c16_take_observable and c16_tokio_take_observable (ONE observational specification — what is appended after the "
+                  "untouched filled prefix, how the allowance moves, which capacity the inner stream is offered, Pending and errors passed on — "
+                  "proved of the crate's take and of tokio's Take); c16_pinned_refuted keeps the zero-capacity counterexample of the pre-fix "
+                  "chain. GenEq/SrcC16.v restates them about the regenerated poll_read functions. Stated over the modelled ReadBuf.")
     nontrivial_rule = ("scripted inner streams (chunks, spurious empty reads, errors, panics, EOF) x every subset of polls answered Pending for "
                        "short scripts x ReadBufs {empty, zero capacity, pre-filled, pre-filled + zero capacity, uninit} x limits {0, below, equal, "
                        "above, u64::MAX}; every case runs the crate adapter AND tokio's own; non-trivial = at least one poll_read")
